@@ -75,7 +75,7 @@ func runC15Loop(c *sim.Ctx, t *testing.T) {
 		for i := 0; i < nops; i++ {
 			switch k := c.Intn(8, "op"); {
 			case k <= 2:
-				plans[r] = append(plans[r], vfLoopOp{kind: "make", id: ids[c.Intn(2, "id")], d: vfDelays[c.Intn(len(vfDelays), "d")]})
+				plans[r] = append(plans[r], vfLoopOp{kind: "make", id: ids[c.Intn(2, "id")], d: vfDelays[c.Intn(len(vfDelays), "d")], n: c.Intn(4, "unheard")})
 			case k == 3:
 				plans[r] = append(plans[r], vfLoopOp{kind: "cancel", id: ids[c.Intn(2, "id")]})
 			case k == 4:
@@ -177,8 +177,12 @@ func runC15Loop(c *sim.Ctx, t *testing.T) {
 						continue
 					case "make":
 						nmsg++
+						to := "h"
+						if op.n == 1 {
+							to = "nobody" // a timer whose message nobody hears: processing it moves no machine
+						}
 						msg = map[string]interface{}{"to": "timers", "makeTimer": map[string]interface{}{"id": op.id, "in": op.d.String(),
-							"msg": map[string]interface{}{"to": "h", "id": fmt.Sprintf("t%d.%d", r, nmsg)}}}
+							"msg": map[string]interface{}{"to": to, "id": fmt.Sprintf("t%d.%d", r, nmsg)}}}
 					case "cancel":
 						msg = map[string]interface{}{"to": "timers", "cancelTimer": op.id}
 					case "flip":
